@@ -2632,6 +2632,126 @@ def c05_neg_inlist(env, ob):
     return run_negation(env, ob, "InList")
 
 
+def _definite_paths(res):
+    out = []
+    for path, rv in res:
+        if path.cut or path.panics or rv is None or not isinstance(rv, Agg):
+            continue
+        bools = []
+        for c in path.heap.values():
+            collect_bool_results(c.val, bools)
+        collect_bool_results(rv, bools)
+        if len(bools) == 1:
+            out.append((path, bools[0].term))
+    return out
+
+
+def _operand_discs(path, variant):
+    """{operand field index: [discriminant terms of every `vec[0]` read of that operand's evaluated value]}"""
+    ev_of = {}
+    for e in path.events:
+        if e["callee"].endswith("::evaluate") and len(e["argdesc"]) == 2:
+            m = re.search(r"@" + variant + r"\.(\d+)\.", e["argdesc"][1])
+            if m and isinstance(e["ret"], Agg):
+                ev_of[e["ret"].name] = int(m.group(1))
+    out = {}
+    for e in path.events:
+        if re.search(r" as Index<usize>>::index$", e["callee"]) and isinstance(e["ret"], Ref) and isinstance(e["ret"].cell.val, Agg):
+            for nm, k in ev_of.items():
+                if e["argdesc"][0] == "&" + nm + "@Ok.0":
+                    out.setdefault(k, []).append(e["ret"].cell.val.get_disc().term)
+    return out
+
+
+def _same(ts):
+    return [f"(= {ts[0]} {t})" for t in ts[1:]]
+
+
+@obligation(id="C05.null_operands[BETWEEN]", funcs=NEG_FUNCS, native="c05_null_in_between",
+            bounds="every path of the Between arm that returns a truth value; operand values abstract (only NULL or not), "
+                   "comparisons uninterpreted; repeated reads of one operand agree")
+def c05_null_between(env, ob):
+    """Three-valued logic: with a NULL probe BETWEEN / NOT BETWEEN is unknown; with a NULL bound it is decided only as
+    'not between' (the other comparison failed) - never as 'between'."""
+    ctx, f, be, res = eval_arm(env, ob, "Between")
+    nsym = negated_symbol(be, "Between", env)
+    null = bvconst(env.enum_variants("types/mod.rs", "DataType")["Null"], 64)
+    qs, labels = [], []
+    dps = _definite_paths(res)
+    for path, b in dps:
+        od = _operand_discs(path, "Between")
+        if 0 not in od:
+            return result(ob, "inconclusive", reason=f"probe of BETWEEN not identified on a path: {sorted(od)}", paths=len(res))
+        for k in (1, 2):
+            if k not in od:     # a truth value returned without looking at this bound: it may be NULL for all the path knows
+                od[k] = [ctx.declare(f"unread_bound_{k}_{len(qs)}#d", "isize").term]
+        eqs = _same(od[0]) + _same(od[1]) + _same(od[2])
+        qs.append(conj(path.pc + eqs + [f"(= {od[0][0]} {null})"]))
+        labels.append("null_probe_yields_a_truth_value")
+        for k, lab in ((1, "null_lower_bound_decided_as_between"), (2, "null_upper_bound_decided_as_between")):
+            qs.append(conj(path.pc + eqs + [f"(= {od[k][0]} {null})", f"(not (= {b} {nsym}))"]))
+            labels.append(lab)
+    kw = dict(paths=len(res), events={"paths_with_a_truth_value": len(dps)})
+    if len(dps) < 2:
+        return result(ob, "inconclusive", reason="vacuity: fewer than two paths return a truth value", **kw)
+    chk = env.check(ctx, qs + [disj([conj(p.pc) for p, b in dps])])
+    kw["queries"] = len(chk)
+    if chk[-1]["verdict"] != "sat":
+        return result(ob, "inconclusive", reason="vacuity: " + chk[-1]["verdict"], **kw)
+    failed = sorted({lab for lab, c in zip(labels, chk) if c["verdict"] == "sat"})
+    unk = [c["verdict"] for c in chk[:-1] if c["verdict"] not in ("sat", "unsat")]
+    if failed:
+        return result(ob, "violated", failed=failed, cex={"what": "BETWEEN answers TRUE/FALSE where SQL says unknown"}, **kw)
+    if unk:
+        return result(ob, "inconclusive", reason="solver: " + ",".join(unk[:3]), **kw)
+    return result(ob, "discharged", **kw)
+
+
+@obligation(id="C05.null_operands[IN list]", funcs=NEG_FUNCS, native="c05_null_in_between",
+            bounds="every path of the InList arm that returns a truth value, list loop unrolled once (one list expression "
+                   "yielding one value); set membership uninterpreted")
+def c05_null_inlist(env, ob):
+    """Three-valued logic: a NULL probe is unknown for IN and NOT IN alike; a miss against a list that holds a NULL is
+    unknown; a hit is a hit."""
+    ctx, f, be, res = eval_arm(env, ob, "InList")
+    null = bvconst(env.enum_variants("types/mod.rs", "DataType")["Null"], 64)
+    qs, labels = [], []
+    dps = _definite_paths(res)
+    with_item = 0
+    for path, b in dps:
+        od = _operand_discs(path, "InList")
+        if 0 not in od:
+            return result(ob, "inconclusive", reason="probe of IN not identified on a path", paths=len(res))
+        eqs = _same(od[0])
+        qs.append(conj(path.pc + eqs + [f"(= {od[0][0]} {null})"]))
+        labels.append("null_probe_yields_a_truth_value")
+        cont = [e["ret"].term for e in path.events if re.search(r"HashSet::<.*>::contains", e["callee"]) and isinstance(e["ret"], Leaf)]
+        for e in path.events:
+            if re.search(r"IntoIter<types::DataType> as Iterator>::next$", e["callee"]) and isinstance(e["ret"], Agg):
+                nm = e["ret"].name
+                od_, id_ = ctx.declare(nm + "#d", "isize"), ctx.declare(nm + "@Some.0#d", "isize")
+                with_item += 1
+                if not cont:
+                    qs.append(conj(path.pc + [f"(= {od_.term} {bvconst(1, 64)})", f"(= {id_.term} {null})"]))
+                else:
+                    qs.append(conj(path.pc + [f"(= {od_.term} {bvconst(1, 64)})", f"(= {id_.term} {null})", f"(not {cont[-1]})"]))
+                labels.append("miss_against_a_list_holding_a_null_is_decided")
+    kw = dict(paths=len(res), events={"paths_with_a_truth_value": len(dps), "list_items_on_them": with_item})
+    if len(dps) < 2 or not with_item:
+        return result(ob, "inconclusive", reason="vacuity: no path with a truth value and a list item", **kw)
+    chk = env.check(ctx, qs + [disj([conj(p.pc) for p, b in dps])])
+    kw["queries"] = len(chk)
+    if chk[-1]["verdict"] != "sat":
+        return result(ob, "inconclusive", reason="vacuity: " + chk[-1]["verdict"], **kw)
+    failed = sorted({lab for lab, c in zip(labels, chk) if c["verdict"] == "sat"})
+    unk = [c["verdict"] for c in chk[:-1] if c["verdict"] not in ("sat", "unsat")]
+    if failed:
+        return result(ob, "violated", failed=failed, cex={"what": "IN / NOT IN answers TRUE/FALSE where SQL says unknown"}, **kw)
+    if unk:
+        return result(ob, "inconclusive", reason="solver: " + ",".join(unk[:3]), **kw)
+    return result(ob, "discharged", **kw)
+
+
 @obligation(id="C05.negation[LIKE]", funcs="ExpressionEvaluator::string_like", native="c05_neg_like",
             bounds="every path of string_like; the matcher's verdict abstract")
 def c05_neg_like(env, ob):
